@@ -24,6 +24,17 @@ impl LedgerCase {
         Some(LedgerCase { rows: rows?, opening: opening?, tags: v["tags"].members().filter_map(|t| t.as_str().map(|s| s.to_string())).collect() })
     }
     pub fn files(&self) -> Vec<(String, String)> { vec![("f0.csv".to_string(), crate::gen::to_csv(&self.rows))] }
+    /// The same rows as consecutive chunks in 2 or 3 files (file order = row order), for every third case content; else one file.
+    pub fn files_maybe_split(&self) -> Vec<(String, String)> {
+        let n = self.rows.len();
+        let h = self.rows.iter().map(|r| r.shares.len() + r.price.len() * 3 + r.sd.ordinal() as usize).sum::<usize>();
+        if n < 2 || h % 3 != 0 { return self.files(); }
+        let k = 2 + (h / 3) % 2;
+        let mut out = vec![];
+        let mut start = 0;
+        for f in 0..k { let end = if f + 1 == k { n } else { (n * (f + 1) / k + (h / 7 + f) % 2).clamp(start, n) }; if end > start { out.push((format!("f{f}.csv"), crate::gen::to_csv(&self.rows[start..end]))); } start = end; }
+        out
+    }
     pub fn run_opts(&self) -> RunOpts { RunOpts { symbol_base: crate::gen::symbol_base_strings(&self.opening), usd_years: crate::gen::usd_years(&self.rows), date_fmt: None, stale_cache_until: None } }
     pub fn opening_for(&self, sec: &str) -> Option<(Rat, Rat)> { self.opening.iter().find(|o| o.0 == sec).map(|o| (Rat::parse(&o.1).unwrap(), Rat::parse(&o.2).unwrap())) }
     pub fn sec_rows(&self, sec: &str) -> Vec<HRow> { self.rows.iter().filter(|r| r.sec == sec).cloned().collect() }
